@@ -1,17 +1,17 @@
 (* tsbatch model driver (C04 batch model, C17 deadline model).  Requests (one line each):
 
-   batch <retain> <keybypath> <hascancel> <isroot> <namesseeenv> <namescontained> <continueonerror>
+   batch <retain> <keybypath> <hascancel> <isroot> <namesseeenv> <namescontained> <continueonerror> [PWD <pwdappended>]
          H <n> (<hexname> <hexvalue>)*            host environment
          T <n> (<hexpathvalue> <hexprog> <0|1>)*  execpath.Look over host directories
          L <hexhelper>
          N <n> (script)*
          SCHED <i>*                               explicit prefix of the schedule; completed round-robin
-     script := S <setuperr> A <n> (<path> <hexdata>)* Q <n> <path>* X <idx|-> V <n> (<hexname> <value>)* D <n> (<id> <bad>)* B <n> (action)*
+     script := S <setuperr> A <n> (<path> <hexdata>)* Q <n> <path>* X <idx|-> [KEEP <n|-> <hexname>*] V <n> (<hexname> <value>)* D <n> (<id> <bad>)* B <n> (action)*
      value  := L:<hex> | W:<path>
      path   := "." | seg(/seg)*
      action := W <path> <hex> | M <path> <ro> | X <path> | C <path> | E <hexk> <hexv> | P <path> <keep>
              | D <id> <bad> | G <h> <neg> | O | F | K | T | Z | N (kill) | Y (kill; wait) | U (wait) | H <neg> <hexprog> (exec) | I <neg> <hexprog> action
-             | L <path> <hextarget> (symlink) | R <path> (rm)
+             | L <path> <hextarget> (symlink) | R <path> (rm) | S (T.Skip in a custom command) | A (T.FailNow in a custom command)
      -> per script "<verdict> regs=.. runs=.. bg=../../.. wp=<0|1> setup=<env>@<tree> probes=<n>(;<cwd>@<env>@<tree>)* conds=.. final=<tree>"
         joined by " | ", then " || root=<0|1> removals=<n> cancelled=<0|1> refcount=<n> alone=<ok|DIFF>"
 
@@ -32,6 +32,9 @@
      -> accepted=<0|1>: is there a run of the timed automaton (TsTimed.v) with slack sigma in which the
         interrupt is sent at tsig and waitOrStop returns at tend?  The intermediate steps are placed
         greedily, each as late as needed and at most sigma after the one before.
+
+   startctx <now> <eps> <D> <t0> -> ctx=<ns> c=<ns|->   (TsLate.v: the deadline of the context of a script started at t0,
+        for the source as it is, and the moment from which waitOrStop can see it done for a command started at t0)
 
    ucheck -> closed=<bool> good=<bool> states=<n>    (the finite interleaving system, all parameters) *)
 
@@ -75,6 +78,7 @@ let rec parse_action () : action =
   | "L" -> let p = path_of_string (next ()) in ASymlink (p, bytes_of_hex (next ()))
   | "R" -> ARm (path_of_string (next ()))
   | "I" -> let neg = bool_of (next ()) in let prog = bytes_of_hex (next ()) in AIfExec (neg, prog, parse_action ())
+  | "S" -> ATSkip | "A" -> ATFail
   | t -> failwith ("bad action " ^ t)
 
 let parse_script (self : int) : script =
@@ -84,13 +88,17 @@ let parse_script (self : int) : script =
   expect "Q"; let n = next_int () in
   let wn = times n (fun () -> path_of_string (next ())) in
   expect "X"; let esc = (let t = next () in if t = "-" then None else Some (nat_of_int (int_of_string t))) in
+  let keep = (match !toks with
+    | "KEEP" :: _ -> ignore (next ());
+        (let t = next () in if t = "-" then None else Some (times (int_of_string t) (fun () -> bytes_of_hex (next ()))))
+    | _ -> None) in
   expect "V"; let n = next_int () in
   let adds = times n (fun () -> let k = bytes_of_hex (next ()) in (k, parse_value self (next ()))) in
   expect "D"; let n = next_int () in
   let defs = times n (fun () -> let i = next_int () in (nat_of_int i, bool_of (next ()))) in
   expect "B"; let n = next_int () in
   let body = times n parse_action in
-  { archive = files; work_named = wn; escaping_at = esc; setup_adds = adds; setup_defers = defs; setup_err = se; body = body }
+  { archive = files; work_named = wn; escaping_at = esc; setup_keep = keep; setup_adds = adds; setup_defers = defs; setup_err = se; body = body }
 
 (* ---- canonical rendering (the Go runner renders its observations the same way) *)
 let render_value (v : value) : string =
@@ -147,6 +155,7 @@ let do_batch () : string =
   let retain = bool_of (next ()) in let kbp = bool_of (next ()) in
   let hc = bool_of (next ()) in let root = bool_of (next ()) in
   let nse = bool_of (next ()) in let nco = bool_of (next ()) in let coe = bool_of (next ()) in
+  let pwd = (match !toks with "PWD" :: _ -> ignore (next ()); bool_of (next ()) | _ -> true) in
   expect "H"; let n = next_int () in
   let host = times n (fun () -> let k = bytes_of_hex (next ()) in (k, bytes_of_hex (next ()))) in
   expect "T"; let n = next_int () in
@@ -158,7 +167,7 @@ let do_batch () : string =
   expect "SCHED";
   let pre = List.map (fun t -> nat_of_int (int_of_string t)) !toks in
   toks := [];
-  let cfg = { retain = retain; key_by_path = kbp; names_see_env = nse; names_contained = nco; empty_cleans = true; continue_on_error = coe; has_cancel = hc; is_root = root; hostenv = host; hosttab = tab; helper = helper } in
+  let cfg = { retain = retain; key_by_path = kbp; names_see_env = nse; names_contained = nco; empty_cleans = true; continue_on_error = coe; has_cancel = hc; pwd_appended = pwd; precancel_guarded = true; is_root = root; hostenv = host; hosttab = tab; helper = helper } in
   let maxb = List.fold_left (fun m p -> Stdlib.max m (int_of_nat (steps_bound p))) 0 progs in
   let sched = pre @ round_robin (nat_of_int n) (nat_of_int maxb) in
   let st = run cfg progs (init progs) sched in
@@ -202,7 +211,7 @@ let do_deadline () : string =
 let do_empty () : string =
   let retain = bool_of (next ()) in let hc = bool_of (next ()) in
   let cfg = { retain = retain; key_by_path = true; names_see_env = true; names_contained = true; empty_cleans = true;
-              continue_on_error = false; has_cancel = hc; is_root = true; hostenv = []; hosttab = []; helper = [] } in
+              continue_on_error = false; has_cancel = hc; pwd_appended = true; precancel_guarded = true; is_root = true; hostenv = []; hosttab = []; helper = [] } in
   let st = start cfg [] in
   Printf.sprintf "root=%s removals=%d cancelled=%s" (b01 st.sh.root_present) (int_of_nat st.sh.root_removals) (b01 st.sh.cancelled)
 
@@ -256,6 +265,11 @@ let do_ta () : string =
   | Some st -> (match st.us.uw with WDoneCtx -> "accepted=1" | _ -> "accepted=0 (wrong result)")
   | None -> "accepted=0"
 
+let do_startctx () : string =
+  let now = next_int () in let eps = next_int () in let d = next_int () in let t0 = next_int () in
+  let p = fg_params_at (z_of_int now) (z_of_int eps) (z_of_int d) (z_of_int t0) None None in
+  Printf.sprintf "ctx=%d c=%s" (int_of_z (script_ctx_deadline (z_of_int now) (z_of_int eps) (z_of_int d) (z_of_int t0))) (zopt p.tC)
+
 let do_ucheck () : string =
   let cl = List.for_all (fun p -> closed p (reach p)) all_params in
   let gd = List.for_all (fun p -> List.for_all (ugood p) (reach p)) all_params in
@@ -271,5 +285,6 @@ let () = serve (fun ts ->
   | "cleanup" -> do_cleanup ()
   | "history" -> do_history ()
   | "ta" -> do_ta ()
+  | "startctx" -> do_startctx ()
   | "ucheck" -> do_ucheck ()
   | _ -> "BAD-REQUEST")
